@@ -248,6 +248,80 @@ def apsensing_case(ctx, rng, fault=None):
     ctx.count(f"apsensing:{fault}")
 
 
+def apsensing_tra_case(ctx, rng, fault=None):
+    """AP Sensing POSC export (.xml) together with the trace export (.tra): reference sensors, log-ratio and loss per trace"""
+    from dtscalibration.io.apsensing import read_apsensing_files
+    r = np.random.default_rng(rng.randrange(2**31))
+    n = rng.randint(2, 5 if ctx.quick else 10)
+    npts = rng.randint(6, 30 if ctx.quick else 200)
+    ts = stamps(rng, n)
+    x = np.round(np.arange(npts) * 0.25 - 5, 3)
+    recs = []
+    for k in range(n):
+        tab = values(r, (npts, 4), "plain")
+        tab[:, 0] = x
+        recs.append(dict(ts=ts[k], table=tab, logratio=values(r, (npts,), "plain"), loss=values(r, (npts,), "plain"),
+                         ref=[round(rng.uniform(-5, 60), 5) for _ in range(4)]))
+    order = list(range(n))
+    rng.shuffle(order)
+    d = workdir("apstra")
+    arrays = rng.random() < 0.6
+    case = dict(vendor="apsensing+tra", nfiles=n, npts=npts, fault=fault, creation_order=order, load_tra_arrays=arrays)
+    try:
+        kw = {}
+        if fault == "tra-missing-one":
+            miss = rng.randrange(n)
+            kw["tra_for"] = [k for k in range(n) if k != miss]
+        if fault == "tra-other-time":
+            kw["tra_stamp_shift"] = {rng.randrange(n): rng.choice([1, 60, 3600])}
+        vendors.apsensing_tra_write(d, recs, order, **kw)
+        with warnings.catch_warnings():
+            warnings.simplefilter("ignore")
+            try:
+                ds = read_apsensing_files(directory=str(d), timezone_netcdf="UTC", file_ext="*.xml", silent=True, load_in_memory=True,
+                                          load_tra_arrays=arrays)
+                raised = None
+            except Exception as e:  # noqa: BLE001
+                ds, raised = None, f"{type(e).__name__}: {str(e)[:100]}"
+        if fault is not None:
+            if raised is None:
+                ctx.fail(f"apsensing+tra: a file set with fault `{fault}` was loaded instead of rejected", case)
+        elif raised is not None:
+            ctx.fail(f"apsensing+tra: valid file set refused: {raised}", case)
+        else:
+            rank = sorted(range(n), key=lambda k: recs[k]["ts"])
+            stamp_ns = np.array([int((recs[k]["ts"] - dt.datetime(1970, 1, 1)).total_seconds()) * 10**9 for k in rank])
+            bad = None
+            if not np.array_equal(ds["time"].values.astype("datetime64[ns]").astype("int64"), stamp_ns):
+                bad = "time axis is not the chronological list of the stored stamps"
+            for ci, cname in ((1, "tmp"), (2, "st"), (3, "ast")):
+                want = np.stack([recs[k]["table"][:, ci] for k in rank], axis=1)
+                if bad is None and not np.array_equal(np.asarray(ds[cname].values), want):
+                    bad = f"{cname}: a value is not at the (x, time) at which it was recorded"
+            for j in range(4):
+                want = np.array([recs[k]["ref"][j] for k in rank])
+                name = f"probe{j + 1}Temperature"
+                if bad is None and (name not in ds or not np.array_equal(np.asarray(ds[name].values, dtype=float), want)):
+                    bad = f"{name}: reference sensor {j + 1} of the .tra files is not under its own file's time stamp"
+            if arrays:
+                for key, name in (("logratio", "log_ratio_by_dts"), ("loss", "loss_by_dts")):
+                    if bad is None:
+                        if name not in ds:
+                            bad = f"{name} missing although load_tra_arrays=True"
+                        else:
+                            got = ds[name].transpose("x", "time").values
+                            want = np.stack([recs[k][key] for k in rank], axis=1)
+                            if not np.array_equal(np.asarray(got), want):
+                                bad = f"{name}: a value is not at the (x, time) at which it was recorded"
+            if bad:
+                ctx.fail("apsensing+tra: " + bad, case)
+    finally:
+        shutil.rmtree(d, ignore_errors=True)
+    nontriv = order != sorted(order)
+    ctx.case(sig=["apsensing+tra", n, fault, arrays, nontriv], nontrivial=nontriv, sample=case)
+    ctx.count(f"apsensing+tra:{fault}")
+
+
 # ------------------------------------------------------------------------------------------------------------- Sensornet
 def sensornet_case(ctx, rng, variant, fault=None, mode="values", edge=False):
     from dtscalibration.io.sensornet import read_sensornet_files
@@ -476,6 +550,10 @@ def run(ctx):
         apsensing_case(ctx, rng)
     for fault in ("npoints", "companion", "npoints"):
         apsensing_case(ctx, rng, fault=fault)
+    for k in range(max(2, reps // 2)):
+        apsensing_tra_case(ctx, rng)
+    for fault in ("tra-missing-one", "tra-other-time"):
+        apsensing_tra_case(ctx, rng, fault=fault)
     for variant in vendors.SENSORNET:
         for k in range(reps):
             sensornet_case(ctx, rng, variant)
